@@ -83,7 +83,7 @@ func Run(ops []Op, opt RunOpts) *History {
 			refPool = append(refPool, rv)
 			h.RefOuts = append(h.RefOuts, rout)
 			if h.Diff == nil && !ref.Ambiguous {
-				if !out.Equal(rout) {
+				if !sameOut(o, out, rout) {
 					h.Diff = &Diff{Step: i, Clause: clauseOf(o, refPool), What: fmt.Sprintf("step %d %s returned %s, the abstract %s returns %s",
 						i, o.String(), out, kindName(o, refPool), rout)}
 				} else if errClass == "" {
@@ -145,6 +145,16 @@ func Run(ops []Op, opt RunOpts) *History {
 		}
 	}
 	return h
+}
+
+// sameOut: the implementation's result is the one the abstract sequence / map gives.  A Slice whose bounds lie
+// outside the sequence has no result: the abstract model only says that the call fails, not how (a Go runtime
+// error and a reported issue are both failures).
+func sameOut(o Op, out, rout Out) bool {
+	if o.Kind == "Slice" && rout.Err == "fault" && (out.Err == "fault" || out.Err == "issue") {
+		return true
+	}
+	return out.Equal(rout)
 }
 
 func kindName(o Op, refPool []*PV) string {
